@@ -1375,6 +1375,10 @@ fn execute(sc: &Scenario) -> RunOutcome {
     }
     apply_fault(&disk, &targets, &sc.fault, &mut out);
     let faulted = sc.fault != Fault::None;
+    out.note(format!("collection of model {} written ({} pure files); fault {:?} applied to one of {:?}", MODEL_NAMES[sc.model], pure_files.len(), sc.fault, targets));
+    for (qi, q) in sc.queries.iter().enumerate() {
+        out.note(format!("query {qi}: {q:?}"));
+    }
 
     let env = Env { sc, uni: &uni, disk: &disk, pure_files, binary_file, faulted };
     match sc.model {
